@@ -114,13 +114,20 @@ func (s signature) Code() uint64 {
 }
 
 func (s signature) Size() uint64 {
-	n, _ := varint.ReadUvarint(bytes.NewReader(s[varint.UvarintSize(s.Code()):]))
+	cl := varint.UvarintSize(s.Code())
+	if cl > len(s) {
+		return 0
+	}
+	n, _ := varint.ReadUvarint(bytes.NewReader(s[cl:]))
 	return n
 }
 
 func (s signature) Raw() []byte {
 	cl := varint.UvarintSize(s.Code())
 	rl := varint.UvarintSize(s.Size())
+	if cl+rl > len(s) {
+		return nil
+	}
 	return s[cl+rl:]
 }
 
